@@ -136,7 +136,7 @@ def step (cs : CaseSt) (op obs : String) : CaseSt × R :=
   | "scenario" =>
     let ls := ((getF fs "listeners").getD "").splitOn ","
     let k := (getNat fs "inflight").getD 0
-    let ample := getF fs "ctx" == some "ample" || getF fs "ctx" == some "tight" || getF fs "ctx" == some "retry"   -- retry: the observed Stop follows one that gave up; tight: still enough for the request as a whole
+    let ample := getF fs "ctx" == some "ample" || getF fs "ctx" == some "tight" || getF fs "ctx" == some "retry" || getF fs "ctx" == some "runcancel"   -- runcancel: NewServer's running context is cancelled first, Stop's own context is ample; retry: the observed Stop follows one that gave up; tight: still enough for the request as a whole
     let ready := getF fs "timing" == some "ready"
     let web := ls.contains "http" || ls.contains "https"
     let started := if web && ready then k else 0
